@@ -11,7 +11,8 @@ Notation wf := (wp fifo_out).
 
 (* ---------- 1. methods without re-entrancy: no processor invocation, the fetch offset is not touched ---------- *)
 Definition NC (g : list Z) (s : state) {A} : res A -> list Z -> state -> Prop :=
-  fun _ g' s' => g' = g /\ s_foff s' = s_foff s /\ s_shutting s' = s_shutting s.
+  fun _ g' s' => g' = g /\ s_foff s' = s_foff s /\ s_shutting s' = s_shutting s /\ s_mblock s' = s_mblock s
+                 /\ s_stopping s' = s_stopping s /\ is_some (s_startd s') = is_some (s_startd s).
 
 Ltac f_emit :=
   lazymatch goal with
@@ -20,8 +21,9 @@ Ltac f_emit :=
 Ltac nc_call lem :=
   eapply wp_call; [ eapply lem; try reflexivity
                   | let r := fresh "r" in let H := fresh "P" in let H2 := fresh "P" in
-                    intros r ? ? [H [H2 ?]]; subst; destruct r; cbn beta iota ].
-Ltac nc_done := try solve [ unfold NC in *; split; [ reflexivity | split; psimpl; congruence ] ].
+                    intros r ? ? [H [H2 [? [? [? ?]]]]]; subst; destruct r; cbn beta iota ].
+Ltac nc_done := try solve [ unfold NC in *; split; [ reflexivity | repeat split; psimpl; first [ congruence
+  | repeat match goal with H : s_startd _ = _ |- _ => rewrite H in * end; cbn [is_some] in *; congruence ] ] ].
 Ltac f_stif :=
   lazymatch goal with
   | |- wp _ _ _ _ ?st => match st with context [if ?b then _ else _] => let D := fresh "D" in destruct b eqn:D end
@@ -115,7 +117,7 @@ Proof.
   intros Hpw Hnc K. eapply wp_conseq.
   - eapply (wp_strengthen _ _ _ (fun r s' => PInv (dead s, false) None s' /\ Fp s s')); [| exact Hnc].
     intros r s' o E F. destruct (Hpw _ (JJ_mode _ K) r s' o E F) as (gp & _ & ((_ & HP) & FP & _)). split; auto.
-  - intros r g' s' [[-> [HF HS]] [HP FP]]. unfold EL. split; [reflexivity|]. split; [exact HF|].
+  - intros r g' s' [[-> [HF [HS _]]] [HP FP]]. unfold EL. split; [reflexivity|]. split; [exact HF|].
     split; [eapply mode_JJ; eauto|]. split; [exact FP | split; [eapply mode_mono; eauto | eapply mode_monod; eauto]].
 Qed.
 
@@ -124,7 +126,7 @@ Proof.
   intro K. eapply wp_conseq.
   - eapply (wp_strengthen _ _ _ (fun r s' => PInv (dead s, false) None s' /\ Fp s s')); [| apply n_startd_errback].
     intros r s' o E F. destruct (p_startd_errback fk _ None s (JJ_mode _ K) r s' o E F) as (gp & _ & ((_ & HP) & FP & _)). split; auto.
-  - intros r g' s' [[-> [HF HS]] [HP FP]]. unfold EL. split; [reflexivity|]. split; [exact HF|].
+  - intros r g' s' [[-> [HF [HS _]]] [HP FP]]. unfold EL. split; [reflexivity|]. split; [exact HF|].
     split; [eapply mode_JJ; eauto|]. split; [exact FP | split; [eapply mode_mono; eauto | eapply mode_monod; eauto]].
 Qed.
 Lemma e_retry_fetch z g s : JJ s -> wf (retry_fetch z) (EL g s) g s.
@@ -426,7 +428,7 @@ Proof.
   - eapply (wp_strengthen _ _ _ (fun r s' => PInv (dead s, dead s) None s' /\ s_proc s' = None /\ s_mblock s' = s_mblock s)).
     + intros r s' o E F. destruct (p_proc_chain l fk _ s K r s' o E F) as (gp & _ & ((_ & HP) & N & MB & _)). auto.
     + apply wp_and; [ apply wp_and; [ apply n_proc_chain | apply x_proc_chain ] | apply ok_proc_chain ].
-  - intros r g' s' [[[[-> [HF HS]] HX] HO] (HP & N & MB)]. cbn [fst] in HP.
+  - intros r g' s' [[[[-> [HF [HS _]]] HX] HO] (HP & N & MB)]. cbn [fst] in HP.
     split; [reflexivity|]. split; [exact HF|]. split; [eapply mode_JJ; eauto|]. split; [exact N|]. split; [exact MB|].
     assert (MD : dead s = true -> dead s' = true) by (intro D; rewrite D in HP; apply (PInv_dead _ _ _ _ HP eq_refl)).
     split; [| split; [exact MD | split; [| exact HO]]].
@@ -778,7 +780,7 @@ Proof.
   intro K. eapply wp_conseq.
   - eapply (wp_strengthen _ _ _ (fun r s' => PInv (dead s, false) None s' /\ Fp s s')); [| apply n_stop_req].
     intros r s' o E F. destruct (p_stop_req _ None s (JJ_mode _ K) r s' o E F) as (gp & _ & (((_ & HP) & FP & _) & _)). split; auto.
-  - intros r g' s' [[-> [HF HS]] [HP FP]]. unfold EL. split; [reflexivity|]. split; [exact HF|].
+  - intros r g' s' [[-> [HF [HS _]]] [HP FP]]. unfold EL. split; [reflexivity|]. split; [exact HF|].
     split; [eapply mode_JJ; eauto|]. split; [exact FP | split; [eapply mode_mono; eauto | eapply mode_monod; eauto]].
 Qed.
 
